@@ -432,6 +432,10 @@ func runC13(c *core.Ctx, o Options) {
 	c.Explanation += " Z7 also: no stored context.CancelFunc is called while DefaultHandler.mu / Session.mu (held by a sender waiting in sendRaw) is held; the event subscribers and Session.LogonHandler are called with no mutex of the session held."
 	c.Explanation += " Z2 also: a goroutine whose only loop exit is an error of Accept requires the function that started it to close the listener (directly, deferred, or through a module function) on every returning path after the go statement."
 	c.Explanation += " Z1 also: no wait on a sync.Cond anywhere in the library. Z2 scope also covers bare waits on Done() and follows the context parameter of exported constructors to their call sites inside the library."
+	// Z3 (premise): the write deadline that ends a connection whose peer stops reading is the one the application configured
+	checkOptionsPassedAlong(c, "Z3", libFuncs(c))
+	checkConnWrite(c, "Z3")
+	c.Explanation += " Z3 also: Acceptor/Initiator.writeTimeout is the constructor's parameter as given; Conn.Write is one socket write, not a retry loop (a loop that treats an expired deadline as temporary never returns)."
 	c.RuleMin = map[string]int{"Z1": 5, "Z2": 17, "Z3": 5, "Z4": 6, "Z5": 4, "Z6": 4, "Z7": 4, "Z8": 15}
 	c.MinObl = 45
 }
@@ -732,11 +736,17 @@ func checkNotification(c *core.Ctx, rule string, lib []*ssa.Function) {
 	}
 	paths, _ := an.EnumPathsX(run, 1024)
 	var sel *ssa.Select
-	an.AllInstrs(run, func(in ssa.Instruction) {
-		if s, ok := in.(*ssa.Select); ok && s.Blocking {
-			sel = s
+	// Run and the steps cut out of it (a listen loop, the two ways it ends)
+	for f := range sameGoroutineReach(run) {
+		if f != run && an.IsKnown(f) {
+			continue
 		}
-	})
+		an.AllInstrs(f, func(in ssa.Instruction) {
+			if s, ok := in.(*ssa.Select); ok && s.Blocking && (sel == nil || f == run) {
+				sel = s
+			}
+		})
+	}
 	if sel == nil {
 		c.Ob(rule, "DefaultHandler.Run", "select loop", run.Pos()).Unknown("no blocking select in Run")
 		return
@@ -752,8 +762,8 @@ func checkNotification(c *core.Ctx, rule string, lib []*ssa.Function) {
 	}
 	triggers := func(p *an.Path) []string {
 		var out []string
-		for _, b := range p.Blocks {
-			for _, in := range b.Instrs {
+		for _, in := range p.InstrSeq() {
+			{
 				if call, ok := in.(*ssa.Call); ok && an.CalleeIs(&call.Call, "utils", "EventHandlerPool.Trigger") {
 					out = append(out, evName(call.Call.Args[1]))
 				}
